@@ -95,6 +95,89 @@ func c09GenBody(threads [][]string, zeros int, res *string) func(x *sched.Exec) 
 	}
 }
 
+// ---- "reaches exporters exactly when sampled", under concurrency: spans of all three sampling
+// answers ended by two threads while one of them flushes, through a blocking batch processor and a
+// real TracerProvider; after the provider's Shutdown the exporter holds every sampled span exactly
+// once and nothing else.
+
+type c09NameSampler struct{}
+
+func (c09NameSampler) ShouldSample(p SamplingParameters) SamplingResult {
+	d := RecordAndSample
+	switch p.Name[0] {
+	case 'r':
+		d = RecordOnly
+	case 'd':
+		d = Drop
+	}
+	return SamplingResult{Decision: d, Tracestate: trace.SpanContextFromContext(p.ParentContext).TraceState()}
+}
+func (c09NameSampler) Description() string { return "c09NameSampler" }
+
+type c09RecExp struct{ names []string }
+
+func (e *c09RecExp) ExportSpans(_ context.Context, ss []ReadOnlySpan) error {
+	for _, s := range ss {
+		e.names = append(e.names, s.Name())
+	}
+	sched.Yield("export in flight", e)
+	return nil
+}
+func (e *c09RecExp) Shutdown(context.Context) error { return nil }
+
+func c09ExportBody(threads [][]string, res *string) func(x *sched.Exec) {
+	return func(x *sched.Exec) {
+		ctx := context.Background()
+		exp := &c09RecExp{}
+		tp := NewTracerProvider(WithSampler(c09NameSampler{}),
+			WithSpanProcessor(NewBatchSpanProcessor(exp, WithBlocking(), WithMaxQueueSize(2), WithMaxExportBatchSize(2))))
+		tr := tp.Tracer("c09")
+		want := map[string]int{}
+		var wg vsync.WaitGroup
+		wg.Add(len(threads))
+		for _, ops := range threads {
+			for _, op := range ops {
+				if op[0] == 's' {
+					want[op] = 1
+				}
+			}
+			sched.Go(func() {
+				defer wg.Done()
+				for _, op := range ops {
+					if op == "Flush" {
+						_ = tp.ForceFlush(ctx)
+						continue
+					}
+					_, sp := tr.Start(ctx, op)
+					sp.End()
+				}
+			})
+		}
+		wg.Wait()
+		if err := tp.Shutdown(ctx); err != nil {
+			x.Fail("C09|exported-iff-sampled|concurrent|shutdown-error", "TracerProvider.Shutdown: %v", err)
+		}
+		got := map[string]int{}
+		for _, n := range exp.names {
+			got[n]++
+		}
+		for n, c := range got {
+			if want[n] == 0 {
+				x.Fail("C09|exported-iff-sampled|concurrent|span that was not sampled reached the exporter", "%q exported %d times", n, c)
+			} else if c != 1 {
+				x.Fail("C09|exported-iff-sampled|concurrent|sampled span exported more than once", "%q exported %d times", n, c)
+			}
+		}
+		for n := range want {
+			if got[n] == 0 {
+				x.Fail("C09|exported-iff-sampled|concurrent|sampled span never reached the exporter", "%q was sampled and ended before Shutdown, which returned; exported: %v", n, exp.names)
+			}
+		}
+		sort.Strings(exp.names)
+		*res = fmt.Sprint(exp.names)
+	}
+}
+
 func TestVerifC09IDGen(t *testing.T) {
 	thorough := enum.Start("C09", "probe").Thorough()
 	type scn struct {
@@ -115,9 +198,26 @@ func TestVerifC09IDGen(t *testing.T) {
 	for _, s := range scs {
 		names = append(names, fmt.Sprintf("idgen/%s/P%d", s.name, p))
 	}
+	exps := []scn{
+		{"flush-vs-end", [][]string{{"s1", "Flush"}, {"s2", "r1"}}, 0},
+		{"three-threads", [][]string{{"s1", "d1"}, {"Flush"}, {"r1", "s2"}}, 0},
+	}
+	ep := p - 1 // executions through a batch processor are ~10x longer than the generator's
+	for _, s := range exps {
+		names = append(names, fmt.Sprintf("export/%s/P%d", s.name, ep))
+	}
 	enum.Jobs(names, func(job string) {
 		r := enum.Start("C09", "idgen")
 		defer r.Finish()
+		for _, s := range exps {
+			if fmt.Sprintf("export/%s/P%d", s.name, ep) != job {
+				continue
+			}
+			r.Bound("export_max_preemptions", ep)
+			var res string
+			st := sched.Explore(r, sched.Config{Name: job, MaxP: ep, MaxE: 0, MaxSteps: 6000, Body: c09ExportBody(s.threads, &res), Outcome: func(*sched.Exec) string { return res }})
+			t.Logf("%s: execs=%d states=%d outcomes=%d keys=%v", job, st.Execs, st.States, len(st.Outcomes), r.Keys())
+		}
 		for _, s := range scs {
 			if fmt.Sprintf("idgen/%s/P%d", s.name, p) != job {
 				continue
